@@ -290,6 +290,10 @@ impl<'a> Gen<'a> {
 
     pub fn heading(&mut self) -> Block {
         let level = *self.rng.pick(&[1u8, 1, 2, 2, 2, 3, 3, 4, 6]);
+        if self.rng.chance(1, 30) {
+            // a very long line (a few hundred bytes, multi-byte characters anywhere)
+            return Block::Heading { level, inl: self.words(40, 90), setext: false };
+        }
         Block::Heading { level, inl: self.inlines(10), setext: self.rng.chance(1, 10) }
     }
 
@@ -719,7 +723,7 @@ pub fn rich_key_pool(n: usize, with_dirs: bool, flavour: u64, rng: &mut Rng) -> 
     if flavour == 0 {
         return key_pool(n, with_dirs);
     }
-    let names = ["1", "2", "3", "4", "readme", "my note", "über", "c.d", "x%20y", "a+b", "日本", "UPPER", "2024-01-01", "idea"];
+    let names = ["1", "2", "3", "4", "readme", "my note", "über", "c.d", "x%20y", "a+b", "日本", "UPPER", "2024-01-01", "idea", "Todo", "todo", "2024.01.15", "2024.01"];
     let dirs: Vec<&str> = if with_dirs { vec!["", "", "projects", "archive", "with space", "d/e"] } else { vec![""] };
     let mut v: Vec<String> = vec![];
     let mut guard = 0;
